@@ -6,16 +6,20 @@ distinct, no stored zero.  `Reorder S' S` says that `S'` stores the same (subscr
 pairs as `S` in another order.  The theorems are about the operation models that are tied to
 the implementation by the correspondence runs of C01 / C03 / C07 / C20 (element-wise
 operations: Ops/SparseElem; permute / reshape / squeeze / matricization / conversion:
-Ops/Sparse, Ops/Dense; the aggregating constructor: Ops/Generators).  Operations that have no
-model here (collapse, contract, scale, squash, ttv, ttm, indexing, generators) are covered on
-the implementation only (harness/props/c06.py) and are named in the evidence.
-Only property theorems and examples; proofs are in Lemmas/SparseOrderIndep.lean and the
-Lemmas/SparseElem*.lean files.
+Ops/Sparse, Ops/Dense; the aggregating constructor: Ops/Generators; the multilinear kernels:
+Ops/MultilinearSparse; indexing: Ops/IndexSparse; the operations of the sparse matricized tensor
+and `sptensor.copy`: Ops/SptenmatOps).
+Only property theorems and examples; proofs are in Lemmas/SparseOrderIndep.lean, the
+Lemmas/SparseElem*.lean files, Lemmas/SparseOrderML / SparseOrderIndex / SparseSquash,
+Lemmas/SptenmatOps.lean, Lemmas/SptenmatSorted.lean and Lemmas/SparseReadWF.lean.
 -/
 import PyttbModel.Lemmas.SparseOrderIndep
 import PyttbModel.Lemmas.SparseOrderML
 import PyttbModel.Lemmas.SparseSquash
 import PyttbModel.Lemmas.SparseOrderIndex
+import PyttbModel.Lemmas.SptenmatOps
+import PyttbModel.Lemmas.SptenmatSorted
+import PyttbModel.Lemmas.SparseReadWF
 namespace Pyttb
 open SpElem
 
@@ -644,10 +648,305 @@ theorem C06_wf_sptenrand [Zero α] [BEq α] (shape : List Nat) (q : Rat) (nz : N
   obtain ⟨S, cnt, e, sh, w, _⟩ := fromFunction_spec shape q nz draw fh hq hdraw hfh
   exact ⟨S, cnt, e, sh, w⟩
 
+/-! ### region reads and `sptensor.copy`
+
+`C06_wf_getitem_region` is about every key the model of `__getitem__` accepts (a tuple of
+integers — negative ones counted from the end —, slices with any bounds and step, index lists
+with or without repeated entries); that the model and the code agree on the returned object is
+the subject of the C04 / C06 correspondence runs. -/
+
+/-- `S[key]` with a region key: whenever a sparse tensor comes back, it is well-formed — its
+renumbered subscripts lie inside the shape of the result, are pairwise distinct, carry one
+non-zero value each. -/
+theorem C06_wf_getitem_region [Zero α] [BEq α] (S : Sparse α) (hS : S.WF) (parts : List RPart) (R : Sparse α)
+    (h : S.getItem (.region parts) = .ok (.tensor R)) : R.WF :=
+  getItem_region_wf S hS parts R h
+
+/-- `S.copy()` / `copy.deepcopy(S)` (the plain constructor on the receiver's own components):
+accepted for a well-formed tensor, and the copy stores the same rows and values. -/
+theorem C06_wf_sptensor_copy [Zero α] [BEq α] (S : Sparse α) (hS : S.WF) :
+    S.copy = .ok S ∧ S.WF := ⟨sparse_copy_wf S hS, hS⟩
+
+/-- … so the copies of two tensors that store the same pairs store the same pairs. -/
+theorem C06_perm_sptensor_copy [Zero α] [BEq α] (S S' : Sparse α) (hS : S.WF) (rS : Reorder S' S) :
+    ∃ R R', S.copy = .ok R ∧ S'.copy = .ok R' ∧ R.WF ∧ R'.WF ∧ Reorder R' R :=
+  ⟨S, S', sparse_copy_wf S hS, sparse_copy_wf S' (wf_perm rS hS), hS, wf_perm rS hS, rS⟩
+
+/-! ### the operations of the sparse matricized tensor (`sptenmat`)
+
+`M.mat` is the stored (row, column, value) triples seen as a 2-way sparse tensor of the matrix
+shape; `M.mat.WF` says: one value per pair, pairs inside the matrix and pairwise distinct, no
+stored zero.  `SameUpToOrder M' M` says that `M'` has the mode split of `M` and stores the same
+triples in another order. -/
+
+/-- `M.copy()` / `copy.deepcopy(M)`: whatever comes back is well-formed (repeated pairs summed,
+zero sums dropped), has the receiver's mode split and denotes the receiver's matrix; a
+well-formed receiver with a proper mode split is accepted. -/
+theorem C06_wf_sptenmat_copy [AddMonoid α] [DecidableEq α] (M : Sptenmat α) :
+    (∀ R, M.copy = .ok R → R.mat.WF ∧ R.tshape = M.tshape ∧ R.rdims = M.rdims ∧ R.cdims = M.cdims ∧
+      ∀ i, R.mat.get i = M.mat.get i) ∧
+    (M.mat.WF → isPermOf (M.rdims ++ M.cdims) M.tshape.length = true → ∃ R, M.copy = .ok R) :=
+  ⟨fun R h => Sptenmat.copy_spec M R h, fun hM hp => Sptenmat.copy_ok M hM hp⟩
+
+/-- `copy` of a reordered receiver: accepted too, same stored triples, same matrix. -/
+theorem C06_perm_sptenmat_copy [AddCommMonoid α] [DecidableEq α] (M M' : Sptenmat α) (hM : M.mat.WF)
+    (hp : isPermOf (M.rdims ++ M.cdims) M.tshape.length = true) (hs : Sptenmat.SameUpToOrder M' M) :
+    ∃ R R', M.copy = .ok R ∧ M'.copy = .ok R' ∧ Sptenmat.SameUpToOrder R' R ∧
+      ∀ i, R'.mat.get i = R.mat.get i := by
+  obtain ⟨R, h⟩ := Sptenmat.copy_ok M hM hp
+  obtain ⟨R', h'⟩ := Sptenmat.copy_ok M' (Sptenmat.sameUpToOrder_wf hs hM) (by rw [hs.1, hs.2.1, hs.2.2.1]; exact hp)
+  have r := Sptenmat.copy_perm M M' R R' hs h h'
+  exact ⟨R, R', h, h', r, fun i => denote_perm r.2.2.2 i⟩
+
+/-- `+M` is `M.copy()`. -/
+theorem C06_wf_sptenmat_pos [AddMonoid α] [DecidableEq α] (M R : Sptenmat α) (h : M.pos = .ok R) :
+    M.pos = M.copy ∧ R.mat.WF ∧ R.tshape = M.tshape ∧ R.rdims = M.rdims ∧ R.cdims = M.cdims ∧
+      ∀ i, R.mat.get i = M.mat.get i :=
+  ⟨rfl, Sptenmat.copy_spec M R h⟩
+
+theorem C06_perm_sptenmat_pos [AddCommMonoid α] [DecidableEq α] (M M' : Sptenmat α) (hM : M.mat.WF)
+    (hp : isPermOf (M.rdims ++ M.cdims) M.tshape.length = true) (hs : Sptenmat.SameUpToOrder M' M) :
+    ∃ R R', M.pos = .ok R ∧ M'.pos = .ok R' ∧ Sptenmat.SameUpToOrder R' R ∧
+      ∀ i, R'.mat.get i = R.mat.get i :=
+  C06_perm_sptenmat_copy M M' hM hp hs
+
+/-- `-M`: whatever comes back is well-formed and denotes the negated matrix; it is accepted
+exactly when `copy` is. -/
+theorem C06_wf_sptenmat_neg [Ring α] [DecidableEq α] (M : Sptenmat α) :
+    (∀ R, M.neg = .ok R → R.mat.WF ∧ R.tshape = M.tshape ∧ R.rdims = M.rdims ∧ R.cdims = M.cdims ∧
+      ∀ i, R.mat.get i = - M.mat.get i) ∧
+    ((∃ R, M.copy = .ok R) ↔ ∃ R, M.neg = .ok R) :=
+  ⟨fun R h => Sptenmat.neg_spec M R h, Sptenmat.neg_ok_iff M⟩
+
+theorem C06_perm_sptenmat_neg [Ring α] [DecidableEq α] (M M' : Sptenmat α) (hM : M.mat.WF)
+    (hp : isPermOf (M.rdims ++ M.cdims) M.tshape.length = true) (hs : Sptenmat.SameUpToOrder M' M) :
+    ∃ R R', M.neg = .ok R ∧ M'.neg = .ok R' ∧ Sptenmat.SameUpToOrder R' R ∧
+      ∀ i, R'.mat.get i = R.mat.get i := by
+  obtain ⟨R, h⟩ := (Sptenmat.neg_ok_iff M).1 (Sptenmat.copy_ok M hM hp)
+  obtain ⟨R', h'⟩ := (Sptenmat.neg_ok_iff M').1
+    (Sptenmat.copy_ok M' (Sptenmat.sameUpToOrder_wf hs hM) (by rw [hs.1, hs.2.1, hs.2.2.1]; exact hp))
+  have r := Sptenmat.neg_perm M M' R R' hs h h'
+  exact ⟨R, R', h, h', r, fun i => denote_perm r.2.2.2 i⟩
+
+/-- What the checks of `M[rkey, ckey] = value` guarantee when they pass: every cell lies inside
+the matrix; no cell is named twice when neither key element repeats an index (always so for
+integers and slices); a number is used for every cell, an array supplies the values in loop
+order. -/
+theorem C06_sptenmat_setitem_cells (M : Sptenmat α) (key : List Sptenmat.KeyPart) (rhs : Sptenmat.SetRhs α)
+    (cvs : List (List Nat × α)) (h : M.setCells key rhs = .ok cvs) :
+    M.setitem key rhs = .ok (M.setApply cvs) ∧
+    (∀ cv ∈ cvs, InBounds M.mshape cv.1) ∧
+    (∃ rk ck, key = [rk, ck] ∧ (rk.NoRepeat → ck.NoRepeat → (cvs.map (·.1)).Nodup)) ∧
+    (∀ v, rhs = .scalar v → ∀ cv ∈ cvs, cv.2 = v) ∧
+    (∀ vs, rhs = .arr vs → cvs.map (·.2) = vs) := by
+  refine ⟨?_, Sptenmat.setCells_spec M key rhs cvs h⟩
+  unfold Sptenmat.setitem
+  rw [h]
+
+/-- `M[rkey, ckey] = value` on a well-formed receiver, when the key names no cell twice and no
+assigned value is zero: the stored result is well-formed, keeps the mode split, and every named
+cell holds its value, every other cell what it held before. -/
+theorem C06_wf_sptenmat_setitem [AddCommMonoid α] [DecidableEq α] (M : Sptenmat α) (hM : M.mat.WF)
+    (key : List Sptenmat.KeyPart) (rhs : Sptenmat.SetRhs α) (cvs : List (List Nat × α))
+    (h : M.setCells key rhs = .ok cvs) (hnd : (cvs.map (·.1)).Nodup) (hnz : ∀ cv ∈ cvs, cv.2 ≠ 0) :
+    ∃ R, M.setitem key rhs = .ok R ∧ R.mat.WF ∧
+      R.tshape = M.tshape ∧ R.rdims = M.rdims ∧ R.cdims = M.cdims ∧
+      ∀ i, R.mat.get i = if i ∈ cvs.map (·.1) then kvLast cvs i else M.mat.get i := by
+  obtain ⟨e, hin, _⟩ := C06_sptenmat_setitem_cells M key rhs cvs h
+  obtain ⟨t1, t2, t3, _⟩ := Sptenmat.mshape_setApply M cvs
+  exact ⟨_, e, Sptenmat.setApply_wf M cvs hM hin hnd (fun cv hcv => by simpa using hnz cv hcv), t1, t2, t3,
+    Sptenmat.setApply_get M cvs hM hin hnd⟩
+
+/-- … and for every key and value (zeros and repeated cells included): a reordered receiver is
+refused exactly when the receiver is, and otherwise ends up with the same stored triples — hence
+the same matrix. -/
+theorem C06_perm_sptenmat_setitem [AddCommMonoid α] (M M' : Sptenmat α) (hl : M.subs.length = M.vals.length)
+    (hs : Sptenmat.SameUpToOrder M' M) (key : List Sptenmat.KeyPart) (rhs : Sptenmat.SetRhs α) :
+    (M.setitem key rhs = .error .reject ∧ M'.setitem key rhs = .error .reject) ∨
+    ∃ R R', M.setitem key rhs = .ok R ∧ M'.setitem key rhs = .ok R' ∧ Sptenmat.SameUpToOrder R' R ∧
+      ∀ i, R'.mat.get i = R.mat.get i := by
+  have hc := Sptenmat.setCells_congr M M' key rhs hs.1 hs.2.1 hs.2.2.1
+  unfold Sptenmat.setitem
+  rw [hc]
+  cases hcv : M.setCells key rhs with
+  | error e => cases e; exact Or.inl ⟨rfl, rfl⟩
+  | ok cvs =>
+    right
+    obtain ⟨t1, t2, t3, _⟩ := Sptenmat.mshape_setApply M cvs
+    obtain ⟨t1', t2', t3', _⟩ := Sptenmat.mshape_setApply M' cvs
+    have r := Sptenmat.setApply_perm M M' cvs hl hs.2.2.2
+    exact ⟨_, _, rfl, rfl, ⟨by rw [t1, t1', hs.1], by rw [t2, t2', hs.2.1], by rw [t3, t3', hs.2.2.1], r⟩,
+      fun i => denote_perm r i⟩
+
+/-- The code stores an assigned zero like any other value: `M[0, 0] = 0` on the 2×3 matrix
+holding 3 at (1, 2) and 2 at (0, 0) leaves the triples (1, 2, 3), (0, 0, 0) — an explicit zero,
+so the result is not well-formed although the receiver is. -/
+theorem C06_sptenmat_setitem_zero_counterexample :
+    let M : Sptenmat Int := ⟨[2, 3], [0], [1], [[1, 2], [0, 0]], [3, 2]⟩
+    M.mat.WF ∧ M.setitem [.int 0, .int 0] (.scalar 0) = .ok ⟨[2, 3], [0], [1], [[1, 2], [0, 0]], [3, 0]⟩ ∧
+      ¬ (⟨[2, 3], [0], [1], [[1, 2], [0, 0]], [3, 0]⟩ : Sptenmat Int).mat.WF := by
+  refine ⟨⟨rfl, by decide, by decide, by decide⟩, by decide, fun h => ?_⟩
+  exact absurd (h.nz 0 (by decide)) (by decide)
+
+/-- A pair that is not stored and is named twice by the key is appended twice:
+`M[[0, 0], [1]] = [5, 6]` leaves the pair (0, 1) stored twice. -/
+theorem C06_sptenmat_setitem_repeated_counterexample :
+    let M : Sptenmat Int := ⟨[2, 3], [0], [1], [[1, 2], [0, 0]], [3, 2]⟩
+    ∃ R, M.setitem [.list [0, 0], .list [1]] (.arr [5, 6]) = .ok R ∧ ¬ R.mat.WF := by
+  intro M
+  have hc : M.setCells [.list [0, 0], .list [1]] (.arr [5, 6]) = .ok [([0, 1], 5), ([0, 1], 6)] := by decide
+  refine ⟨M.setApply [([0, 1], 5), ([0, 1], 6)], by unfold Sptenmat.setitem; rw [hc], fun h => ?_⟩
+  have r := Sptenmat.setApply_reorder M [([0, 1], 5), ([0, 1], 6)] rfl
+  have hp : (M.setApply [([0, 1], 5), ([0, 1], 6)]).mat.subs.Perm (Sptenmat.loopResult M [([0, 1], 5), ([0, 1], 6)]).subs :=
+    Sptenmat.perm_subs_of_entries r.2.1 (Sptenmat.loopResult_len M _ rfl) r.2.2
+  have hnd := hp.nodup_iff.1 h.nodup
+  exact absurd hnd (by decide)
+
+/-- `M.nnz` (`len(self.vals)`) of a well-formed receiver is the number of stored pairs and the
+number of non-zero cells of the matrix. -/
+theorem C06_wf_sptenmat_nnz [AddMonoid α] [DecidableEq α] (M : Sptenmat α) (hM : M.mat.WF) :
+    M.nnz = M.subs.length ∧
+    M.nnz = ((allSubs M.mshape).filter (fun i => !(M.mat.get i == 0))).length := by
+  have h := nnz_reports M.mat hM
+  have e : M.nnz = M.mat.nnz := hM.len.symm
+  exact ⟨hM.len.symm, e.trans h.2.2⟩
+
+theorem C06_perm_sptenmat_nnz (M M' : Sptenmat α) (hl : M.subs.length = M.vals.length)
+    (hs : Sptenmat.SameUpToOrder M' M) : M'.nnz = M.nnz :=
+  Sptenmat.nnz_perm M M' hl hs
+
+/-- `M.norm()²` (sum of the squares of the stored values) is the sum of the squares of the
+cells of the matrix … -/
+theorem C06_wf_sptenmat_norm [CommSemiring α] [DecidableEq α] (M : Sptenmat α) (hM : M.mat.WF) :
+    M.normSq = ((allSubs M.mshape).map fun k => M.mat.get k * M.mat.get k).sum :=
+  Sptenmat.normSq_spec M hM
+
+/-- … and the same number for a reordered receiver. -/
+theorem C06_perm_sptenmat_norm [AddCommMonoid α] [Mul α] (M M' : Sptenmat α) (hl : M.subs.length = M.vals.length)
+    (hs : Sptenmat.SameUpToOrder M' M) : M'.normSq = M.normSq :=
+  Sptenmat.normSq_perm M M' hl hs
+
+/-- `M.double()` (seen as a dense matrix): of the matrix shape, cell by cell the denoted matrix. -/
+theorem C06_wf_sptenmat_double [Add α] [Zero α] (M : Sptenmat α) (D : Dense α) (h : M.double = .ok D) :
+    D.WF ∧ D.shape = M.mshape ∧ ∀ i, InBounds M.mshape i → D.get i = M.mat.get i :=
+  Sptenmat.double_spec M D h
+
+/-- literally the same matrix (or the same refusal) for a reordered receiver. -/
+theorem C06_perm_sptenmat_double [AddCommMonoid α] (M M' : Sptenmat α) (hs : Sptenmat.SameUpToOrder M' M) :
+    M'.double = M.double :=
+  Sptenmat.double_perm M M' hs
+
+/-- `M.full()` of a well-formed receiver: a dense matricized tensor with the same mode split
+holding the denoted matrix. -/
+theorem C06_wf_sptenmat_full [AddMonoid α] [DecidableEq α] (M : Sptenmat α) (hM : M.mat.WF) (T : Tenmat α)
+    (h : M.full? = .ok T) :
+    T.tshape = M.tshape ∧ T.rdims = M.rdims ∧ T.cdims = M.cdims ∧ T.data.WF ∧ T.data.shape = M.mshape ∧
+      ∀ i, InBounds M.mshape i → T.data.get i = M.mat.get i :=
+  Sptenmat.full_spec M hM T h
+
+/-- literally the same dense object (or the same refusal) for a reordered receiver. -/
+theorem C06_perm_sptenmat_full [AddCommMonoid α] [DecidableEq α] (M M' : Sptenmat α) (hM : M.mat.WF)
+    (hs : Sptenmat.SameUpToOrder M' M) : M'.full? = M.full? :=
+  Sptenmat.full_perm M M' hM hs
+
+/-- `M.to_sptensor()` of a well-formed receiver with a proper mode split: the `sptensor`
+constructor accepts the expanded subscripts, the tensor is well-formed and holds at every
+subscript what the matrix holds at the cell that subscript is matricized to. -/
+theorem C06_wf_sptenmat_to_sptensor [AddMonoid α] [DecidableEq α] (M : Sptenmat α) (hM : M.mat.WF)
+    (hp : isPermOf (M.rdims ++ M.cdims) M.tshape.length = true) :
+    ∃ S, M.toSptensor = .ok S ∧ S.WF ∧ S.shape = M.tshape ∧
+      ∀ j, InBounds M.tshape j → S.get j = M.mat.get (matSub M.tshape M.rdims M.cdims j) := by
+  obtain ⟨e, w, sh⟩ := Sptenmat.toSptensor_wf M hM hp
+  exact ⟨_, e, w, sh, fun j hj => Sptenmat.toSparse_get M hM hp j hj⟩
+
+/-- the tensors of a receiver and of a reordered receiver store the same (subscript, value)
+pairs. -/
+theorem C06_perm_sptenmat_to_sptensor [AddMonoid α] [DecidableEq α] (M M' : Sptenmat α) (hM : M.mat.WF)
+    (hp : isPermOf (M.rdims ++ M.cdims) M.tshape.length = true) (hs : Sptenmat.SameUpToOrder M' M) :
+    ∃ S S', M.toSptensor = .ok S ∧ M'.toSptensor = .ok S' ∧ S.WF ∧ S'.WF ∧ Reorder S' S := by
+  obtain ⟨e, w, _⟩ := Sptenmat.toSptensor_wf M hM hp
+  obtain ⟨e', w', _⟩ := Sptenmat.toSptensor_wf M' (wf_perm hs.2.2.2 hM) (by rw [hs.1, hs.2.1, hs.2.2.1]; exact hp)
+  exact ⟨_, _, e, e', w, w', Sptenmat.toSparse_perm M M' hs⟩
+
+/-- `M.isequal(N)` compares the five stored components literally: it answers `True` exactly
+when the two objects store the same triples in the same order with the same mode split. -/
+theorem C06_sptenmat_isequal_iff [DecidableEq α] (M N : Sptenmat α) : M.isequal N = true ↔ M = N :=
+  Sptenmat.isequal_iff M N
+
+/-- … so it is NOT independent of the stored order: a well-formed matricized tensor and the
+same triples listed in the other order denote the same matrix but are not `isequal`. -/
+theorem C06_perm_sptenmat_isequal_counterexample :
+    let M : Sptenmat Int := ⟨[2, 3], [0], [1], [[1, 2], [0, 0]], [3, 2]⟩
+    let M' : Sptenmat Int := ⟨[2, 3], [0], [1], [[0, 0], [1, 2]], [2, 3]⟩
+    M.mat.WF ∧ Sptenmat.SameUpToOrder M' M ∧ M.isequal M = true ∧ M'.isequal M = false :=
+  ⟨⟨rfl, by decide, by decide, by decide⟩, ⟨rfl, rfl, rfl, rfl, rfl, by decide⟩, by decide, by decide⟩
+
+/-! ### canonical stored order: literally the same object for every stored order -/
+
+/-- `M.copy()` / `copy.deepcopy(M)` / `+M` sort the triples by (row, column): a receiver that
+stores the same triples in another order gets literally the same object — or the same refusal. -/
+theorem C06_perm_sptenmat_copy_literal [AddCommMonoid α] [DecidableEq α] (M M' : Sptenmat α)
+    (hl : M.subs.length = M.vals.length) (hs : Sptenmat.SameUpToOrder M' M) :
+    M'.copy = M.copy ∧ M'.pos = M.pos :=
+  ⟨Sptenmat.copy_eq_of_sameUpToOrder M M' hl hs, Sptenmat.copy_eq_of_sameUpToOrder M M' hl hs⟩
+
+/-- the same for `-M`. -/
+theorem C06_perm_sptenmat_neg_literal [Ring α] [DecidableEq α] (M M' : Sptenmat α)
+    (hl : M.subs.length = M.vals.length) (hs : Sptenmat.SameUpToOrder M' M) : M'.neg = M.neg :=
+  Sptenmat.neg_eq_of_sameUpToOrder M M' hl hs
+
+/-- … hence `isequal` IS independent of the stored order once both sides went through `copy`
+(the canonical form): the copies of two receivers that store the same triples are `isequal`. -/
+theorem C06_perm_sptenmat_isequal_canonical [AddCommMonoid α] [DecidableEq α] (M M' R R' : Sptenmat α)
+    (hl : M.subs.length = M.vals.length) (hs : Sptenmat.SameUpToOrder M' M)
+    (h : M.copy = .ok R) (h' : M'.copy = .ok R') : R'.isequal R = true := by
+  rw [Sptenmat.copy_eq_of_sameUpToOrder M M' hl hs, h] at h'
+  cases h'
+  exact (Sptenmat.isequal_iff R R).2 rfl
+
+/-- `M[key] = value` that appends at least one pair re-sorts the triples: for a well-formed
+receiver and a key that names no cell twice, the stored result is literally the same for every
+stored order of the receiver.  (When only stored pairs are overwritten the stored order is
+kept, and `C06_perm_sptenmat_setitem` gives the same triples up to order.) -/
+theorem C06_perm_sptenmat_setitem_appended [Zero α] [BEq α] (M M' : Sptenmat α) (hM : M.mat.WF)
+    (hs : Sptenmat.SameUpToOrder M' M) (key : List Sptenmat.KeyPart) (rhs : Sptenmat.SetRhs α)
+    (cvs : List (List Nat × α)) (h : M.setCells key rhs = .ok cvs) (hnd : (cvs.map (·.1)).Nodup)
+    (hnew : ∃ cv ∈ cvs, cv.1 ∉ M.subs) :
+    M'.setitem key rhs = M.setitem key rhs := by
+  have hc := Sptenmat.setCells_congr M M' key rhs hs.1 hs.2.1 hs.2.2.1
+  unfold Sptenmat.setitem
+  rw [hc, h]
+  simp only
+  congr 1
+  apply Sptenmat.setApply_eq_of_appended M M' cvs hM hnd hs
+  obtain ⟨cv, hcv, hnot⟩ := hnew
+  intro hempty
+  have hin := (Sptenmat.setCells_spec M key rhs cvs h).1
+  have : cv ∈ cvs.filter fun cv => !M.subs.any (Sptenmat.hits cv.1) := by
+    rw [List.mem_filter]
+    refine ⟨hcv, ?_⟩
+    simp only [Bool.not_eq_true', List.any_eq_false]
+    intro s hs'
+    rw [Sptenmat.hits_eq_beq (Sptenmat.mshape_length M) (hin cv hcv) (hM.inb s hs')]
+    have : cv.1 ≠ s := fun e => hnot (e ▸ hs')
+    simpa using this
+  rw [hempty] at this
+  cases this
+
 /-! ### the statements are about something -/
 
 example : Reorder (⟨[2, 2], [[1, 1], [0, 0]], [3, 2]⟩ : Sparse Int) ⟨[2, 2], [[0, 0], [1, 1]], [2, 3]⟩ :=
   ⟨rfl, rfl, by decide⟩
 example : (⟨[2, 2], [[1, 1], [0, 0]], [3, 2]⟩ : Sparse Int).WF := ⟨rfl, by decide, by decide, by decide⟩
+/-- a well-formed sparse matricized tensor (2×3, entries stored unsorted), an accepted assignment over a
+stored and a new pair with non-zero values and a key that names no cell twice. -/
+example : (⟨[2, 3], [0], [1], [[1, 2], [0, 0]], [3, 2]⟩ : Sptenmat Int).mat.WF ∧
+    (⟨[2, 3], [0], [1], [[1, 2], [0, 0]], [3, 2]⟩ : Sptenmat Int).setCells [.slice none none none, .int 0] (.arr [5, 7])
+      = .ok [([0, 0], 5), ([1, 0], 7)] ∧
+    isPermOf ([0] ++ [1]) [2, 3].length = true :=
+  ⟨⟨rfl, by decide, by decide, by decide⟩, by decide, by decide⟩
+/-- a region read that returns a sparse tensor. -/
+example : (⟨[2, 3], [[1, 2], [0, 0]], [3, 2]⟩ : Sparse Int).getItem (.region [.slice none none none, .list [2, 0]])
+    = .ok (.tensor ⟨[2, 2], [[1, 0], [0, 1]], [3, 2]⟩) := by rfl
 
 end Pyttb
